@@ -168,7 +168,7 @@ func (r *statsRun) end(ops sx.L, evs []broker.HookEvent, connectID string) {
 
 func engStats(seed int64, tier string, _ []string, out *sx.Out) {
 	rng := rand.New(rand.NewSource(seed))
-	histories, steps := 200, 36
+	histories, steps := 150, 36
 	if tier == "thorough" {
 		histories, steps = 6000, 60
 	}
